@@ -1,7 +1,7 @@
 CONSTANTS
   Kinds = {"named_struct", "tuple_struct", "unit_struct", "enum", "union", "generic_struct", "alias", "const"}
   OuterArgs = {"bare", "swift", "redacted"}
-  Helpers = {"skip", "serialized_as", "lang"}
+  Helpers = {"skip", "serialized_as", "lang", "stacked", "stacked_apart", "triple"}
   Mixes = {"none", "serde", "docs"}
   MaxPos = 4
 INIT Init
